@@ -34,7 +34,7 @@ BOUNDS = {
 }
 STUBS = ["stdlib urllib.parse.unquote and urljoin interpreted from source", "RecursionError modelled at interpreted call depth 48; a counterexample is only reported when the native call raises RecursionError too"]
 TRUSTED = ["spec/c15.py (own copy of the documented redirect-key list and cache patterns)", "pysx engine", "z3"]
-ASSUMPTIONS = ["wall-clock per call is not a solver question: termination is decided as 'no RecursionError' on every path within the bound",
+ASSUMPTIONS = ["wall-clock per call is not a solver question: termination is decided as 'no RecursionError and no while loop beyond 3000 iterations' on every path within the bound (pysx.lib.bounded_call; natively: 400000 traced steps)",
                "chains of more than 12 inference steps are outside recursive_equals_iterated_step"]
 
 
